@@ -2159,12 +2159,13 @@ fn plans(prop: &str, tier: &str) -> Vec<Plan> {
             }
             out.push(Plan { name: "c05-reduced-deep", cfgs, depth: if q { 6 } else { 7 } });
             out.push(Plan { name: "c05-tree", cfgs: tree_vec_cfgs("C05", false), depth: if q { 2 } else { 3 } });
-            // whole transaction bodies with the full alphabet: begin, four (thorough: five) operations, commit
+            // whole transaction bodies with the full alphabet: begin, four operations, commit (both tiers;
+            // VERIF_EXTRA_DEPTH deepens it)
             let mut cfgs = Vec::new();
             for ps in [vec![(Kind::Plain, Policy::Eager)], vec![(Kind::Batched, Policy::Eager)], vec![(Kind::Plain, Policy::Eager), (Kind::Batched, Policy::Eager)]] {
                 cfgs.extend(with_lens(Cfg { pre_subs: ps, txn: true, txn_body: true, ..base("C05") }, 0..=3));
             }
-            out.push(Plan { name: "c05-txn-bodies", cfgs, depth: if q { 6 } else { 7 } });
+            out.push(Plan { name: "c05-txn-bodies", cfgs, depth: 6 });
         }
         "C06" => {
             for (cap, dq, dt) in [(1usize, 6usize, 7usize), (2, 6, 7), (3, 7, 8)] {
@@ -2227,7 +2228,7 @@ fn plans(prop: &str, tier: &str) -> Vec<Plan> {
             for ps in [vec![(Kind::Plain, Policy::Eager)], vec![(Kind::Batched, Policy::Eager)]] {
                 cfgs.extend(with_lens(Cfg { pre_subs: ps, txn: true, txn_abort: true, txn_body: true, ..base("C07") }, 0..=3));
             }
-            out.push(Plan { name: "c07-txn-bodies", cfgs, depth: if q { 6 } else { 7 } });
+            out.push(Plan { name: "c07-txn-bodies", cfgs, depth: 6 });
         }
         "C08" => {
             let mut cfgs = Vec::new();
